@@ -4999,7 +4999,10 @@ int main_check_type(module_decl * module_modules, module_decl * module_stdlib, m
 {
     module_decl_check_type(module_modules, module_stdlib, module_nev, result);
 
-    seq_list_func_entry_check_type(module_nev->nev->exprs, result);
+    if (module_nev->nev->exprs != NULL)
+    {
+        seq_list_func_entry_check_type(module_nev->nev->exprs, result);
+    }
 
     return 0;
 }
